@@ -151,8 +151,21 @@ def can_coerce_address_into(a, b):
 @memo
 def sized_element(t):
     """May be the element of an array-like: must have a compile-time size or be an array-like
-    placeholder; void, slices, endless arrays and views are not elements."""
+    placeholder; void, slices, endless arrays and views are not elements.  NOTE: admitting the placeholder `[]T`
+    (Arraylike) here transcribes the code, not docs/errors.md E350; the documented rule is decided separately
+    (c11.py, clause docs-E350:array-view-as-element, a recorded known finding)."""
     return znot(t.is_('Void', 'Slice', 'SlicePointer', 'EndlessArray', 'View'))
+
+
+@memo
+def has_view_element(t):
+    """Somewhere in t an array view `[]T` (as parsed: Arraylike) is the element of an array, array view, slice pointer or
+    endless array - `[10][]u8`, `[][]i32`: docs/errors.md E350 calls these invalid because `[]T` has no compile-time size."""
+    c = t.child()
+    if c is None:
+        return FALSE
+    here = zand(t.is_('Array', 'ArrayWithNamedLength', 'Slice', 'SlicePointer', 'EndlessArray', 'Arraylike'), c.is_('Arraylike'))
+    return zor(here, zand(t.is_(*BOXED), has_view_element(c)))
 
 
 @memo
